@@ -24,8 +24,13 @@ func stubSha256New() hash.Hash { lastHash = &nullHash{}; return lastHash }
 // HarnessC02Insert: arbitrary payload bytes (newlines included).
 func HarnessC02Insert() {
 	termOut = nil
-	ich := make(chan string, 4)
-	payload := nondetBytes(nondetLen(verifParam("m")), 0)
+	ich := make(chan string, 64)
+	var payload []byte
+	if big := verifParam("big"); big > 0 {
+		payload = bigPayload(big)
+	} else {
+		payload = nondetBytes(nondetLen(verifParam("m")), 0)
+	}
 	genErr := nondetBool()
 	gen := func() ([]byte, error) {
 		if genErr {
@@ -55,4 +60,20 @@ func HarnessC02Insert() {
 	}
 	verifAssert(lastHash != nil && lastHash.n == len(payload), "C02.insert.hash-covers-what-was-sent")
 	verifReach("C02.insert.ok")
+}
+
+// bigPayload: a payload of big-1, big or big+1 bytes: filler with arbitrary bytes (newlines
+// included) at the ends, in the middle and around the quarter points.
+func bigPayload(big int) []byte {
+	size := big - 1 + nondetChoice(3)
+	p := make([]byte, size)
+	for i := range p {
+		p[i] = 'x'
+	}
+	for _, at := range []int{0, size / 4, size / 2, size/2 + 1, size - size/4, size - 2, size - 1} {
+		if at >= 0 && at < size {
+			p[at] = nondetByte()
+		}
+	}
+	return p
 }
